@@ -43,6 +43,47 @@ def extra(ctx, res):
             M.check_window(ctx, res, f"{cls}.{m}")
     with res.guard("check_uniqctx, res, cls, TIME"):
         check_uniq(ctx, res, cls, "TIME")
+    # ---- G-SCOPE: inside the window builder the records of ONE window are what counts: a whole-history query (`get_times_for_edge`,
+    #      `get_edges()` without the window) consumed without a comparison of each time against the window bounds sums / picks over
+    #      every recurrence of the node set, whatever window it falls in
+    with res.guard("G-SCOPE in aggregate"):
+        res.rules["G-SCOPE"] = "aggregate() takes weights and metadata of a window from the records whose time lies in that window: a whole-history listing of a node set's times is restricted to the window before it is summed / picked from"
+        av = ctx.view(f"{cls}.aggregate")
+        n_hist = 0
+        for c in walk_no_nested(av.fi.node):
+            if not (isinstance(c, ast.Call) and isinstance(c.func, ast.Attribute) and c.func.attr == "get_times_for_edge"):
+                continue
+            n_hist += 1
+            # names that hold the listing
+            holder = av.stmt_of(c)
+            names = {t.id for t in getattr(holder, "targets", []) if isinstance(t, ast.Name)} if isinstance(holder, ast.Assign) else set()
+            # consumers: comprehensions / loops over the call or the names; restricted when a chained / paired comparison of the loop
+            # variable stands in the comprehension's ifs or guards the loop body
+            restricted = False
+            consumers = 0
+            for n in walk_no_nested(av.fi.node):
+                gens = n.generators if isinstance(n, (ast.GeneratorExp, ast.ListComp, ast.SetComp, ast.DictComp)) else []
+                for g in gens:
+                    if g.iter is c or (isinstance(g.iter, ast.Name) and g.iter.id in names):
+                        consumers += 1
+                        tv = {x.id for x in ast.walk(g.target) if isinstance(x, ast.Name)}
+                        if any(isinstance(x, ast.Compare) and any(isinstance(o, (ast.Lt, ast.LtE, ast.Gt, ast.GtE)) for o in x.ops) and tv & {y.id for y in ast.walk(x) if isinstance(y, ast.Name)} for i_ in g.ifs for x in ast.walk(i_)):
+                            restricted = True
+                if isinstance(n, ast.For) and (n.iter is c or (isinstance(n.iter, ast.Name) and n.iter.id in names)):
+                    consumers += 1
+                    tv = {x.id for x in ast.walk(n.target) if isinstance(x, ast.Name)}
+                    if any(isinstance(x, ast.Compare) and any(isinstance(o, (ast.Lt, ast.LtE, ast.Gt, ast.GtE)) for o in x.ops) and tv & {y.id for y in ast.walk(x) if isinstance(y, ast.Name)} for b in n.body for x in ast.walk(b) if isinstance(b, ast.If) for x in ast.walk(b.test)):
+                        restricted = True
+                if isinstance(n, ast.Call) and isinstance(n.func, ast.Name) and n.func.id in ("max", "min", "sum", "len", "sorted") and n.args and (n.args[0] is c or (isinstance(n.args[0], ast.Name) and n.args[0].id in names)):
+                    consumers += 1
+            if consumers and not restricted:
+                res.violation("G-SCOPE", av.fi.short, norm(c)[:80], "window-restricted", f"`{norm(c)[:50]}` lists EVERY time at which the node set occurs; it is summed / picked from without comparing the times with the window bounds: a hyperedge that recurs in another window carries the weight (and the latest metadata) of its whole history into each window", loc(av.fi, c))
+            elif consumers:
+                res.ok("G-SCOPE", av.fi.short, norm(c)[:80], "window-restricted", loc(av.fi, c))
+            else:
+                res.unknown("G-SCOPE", av.fi.short, norm(c)[:80], "window-restricted", "how the whole-history listing is consumed was not recognised", loc(av.fi, c))
+        if n_hist == 0:
+            res.ok("G-SCOPE", av.fi.short, "no whole-history query in the window builder", "window-restricted", loc(av.fi, av.fi.node))
     # snapshot completion: add_node guarded by check_node must sit on the negated branch
     v = ctx.view(f"{cls}.subhypergraph")
     found = 0
